@@ -1,3 +1,13 @@
 # Table read by gen_manifest.py. claim(pid, technique, level text, level note, design ref)
 for _pid in ["C%02d" % i for i in range(1, 20)]:
     PENDING[_pid] = "rules for this property are designed (DESIGN.md section 4) but not yet built and validated in this round; not claimed until the check is silent on the pinned tree and fires on its sensitivity variants"
+
+NOTE_COMMON = "Trusted base: go/packages + go/types of the default Go toolchain; the structured path-condition walker of /verif/checker/internal/facts (no goto/labelled jumps in the module, re-checked); hand-written tables printed under coverage.trusted_base in the evidence. A violation names file:line, rule and construct; floors fail the check if a rule matches fewer sites than confirmed by hand."
+
+claim("C12", "static nil-guard / totality analysis (typed AST, path-condition formulas with truth-table entailment, interprocedural requires-summaries)",
+      "Structural necessary conditions of 'never panics', for all inputs at once: every dereference of an optional decoded API field, of a sometimes-nil module field, of a PeerType-dependent getter result, of an unchecked map lookup or of a value co-returned with an error is dominated by a guard; nil is not passed to dereferencing callees; single-value assertions and constant indexes cannot fail; no explicit panic/exit in library code; netset.IPBlockFromIPAddress is called on validated IPv4 only; call graph acyclic, loops counted. It does not decide panics inside third-party code or resource exhaustion.",
+      NOTE_COMMON + " Assumes receivers non-nil and no aliasing mutation of decoded objects between guard and use.", "DESIGN.md 3(E2), 4(C12)")
+claim("C15", "static typestate / must-pass-through analysis of engine state (cache invalidation, sorted-by-priority invariant)",
+      "Structural necessary conditions of history-independence for all update/query interleavings at once: every function of package eval that writes state read by CheckIfAllowed passes a cache invalidation on every path to a normal return (read set and invalidators computed from the code); every exported entry that adds an admin network policy returns with the slice re-sorted; delete paths do not dereference absent objects (E2). It does not decide the answers themselves, lru eviction, or verdict changes through pod fields outside the cache key.",
+      NOTE_COMMON + " Pod-granular cache bookkeeping is accepted as invalidation for podsMap only (cache key embeds namespace, owner and label hash).", "DESIGN.md 3(E4), 4(C15)")
+PENDING.pop("C12", None); PENDING.pop("C15", None)
